@@ -11,6 +11,7 @@ structure PT (t : AType) : Prop where
   wf : WfType (erase t)
   spos : 0 < (ti (stripArr t)).size
   complete : (ti (stripArr t)).incomplete = false
+  noflex : (ti t).flexible = false
   desc : ∃ q, emittype t = some q ∧
     info q = ⟨(ti (stripArr t)).size, (ti (stripArr t)).align, flattenC x86_64 true (stripArr t)⟩ ∧
     (∀ s, t = .sc s → s.isFloat = false → q = .base (intBase s.size))
@@ -136,7 +137,7 @@ mutual
       obtain ⟨c, hc, hs, hk, hi⟩ := qbetype_good h
       have hpos : 0 < s.size := by omega
       refine ⟨by simp only [erase, WfType]; exact pow2_sc h, by simpa [ti, erase, Abi.tinfo, stripArr] using hpos,
-        by simp [ti, erase, Abi.tinfo, stripArr], c |> QTy.base, ?_, ?_, ?_⟩
+        by simp [ti, erase, Abi.tinfo, stripArr], by simp [ti, erase, Abi.tinfo], c |> QTy.base, ?_, ?_, ?_⟩
       · simp only [emittype]
         have : (qbetype s).map (fun q => QTy.base q.2) = ((qbetype s).map (·.2)).map QTy.base := by
           cases qbetype s <;> rfl
@@ -150,7 +151,7 @@ mutual
       obtain ⟨⟨⟨⟨hd, hs⟩, ha⟩, _⟩, _⟩ := h
       subst ha
       refine ⟨by simp only [erase, WfType]; decide, by simpa [ti, erase, Abi.tinfo, stripArr] using hs,
-        by simp [ti, erase, Abi.tinfo, stripArr], .opaque 8 s, ?_, ?_, ?_⟩
+        by simp [ti, erase, Abi.tinfo, stripArr], by simp [ti, erase, Abi.tinfo], .opaque 8 s, ?_, ?_, ?_⟩
       · simp only [emittype, hd, ↓reduceIte]
       · simp only [info, stripArr, ti, erase, Abi.tinfo, flattenC]
       · intro s' hs'; cases hs'
@@ -162,7 +163,8 @@ mutual
       have ih := pt e he
       have af := arrFacts e he ih.complete
       obtain ⟨q, q1, q2, _⟩ := ih.desc
-      refine ⟨?_, by simpa only [stripArr] using ih.spos, by simpa only [stripArr] using ih.complete, q, ?_, ?_, ?_⟩
+      refine ⟨?_, by simpa only [stripArr] using ih.spos, by simpa only [stripArr] using ih.complete,
+        by simp [ti, erase, Abi.tinfo], q, ?_, ?_, ?_⟩
       · simp only [erase, WfType]
         refine ⟨ih.wf, af.complete, ?_, hb⟩
         have := af.size; have := Nat.mul_pos af.cpos ih.spos
@@ -194,6 +196,7 @@ mutual
       have hal1 : max (aggAlign x86_64 false (Abi.decls x86_64 (eraseF fs))) 1 =
           aggAlign x86_64 false (Abi.decls x86_64 (eraseF fs)) := by have := hpal.pos; omega
       have hstrip : stripArr (.su u false fs) = .su u false fs := rfl
+      have hflex := fok_noflex fs l hfo hok
       cases u with
       | false =>
         have hch : pairwiseB unitRel (Abi.layout x86_64 false false (Abi.decls x86_64 (eraseF fs))).members = true := by
@@ -272,7 +275,9 @@ mutual
             omega
         have hti : ti (.su false false fs) = mkTi (Abi.layout x86_64 false false ds) := by
           simp only [ti, erase, Abi.tinfo, hds, mkTi]
-        refine ⟨hwft, by rw [hstrip, hti]; exact hpos, by rw [hstrip, hti]; rfl, .struct (emitStruct (mkDMs ms l)), ?_, ?_, ?_⟩
+        have hnf : (ti (.su false false fs)).flexible = false := by
+          rw [hti]; simp only [mkTi, Abi.layout, Bool.false_eq_true, ↓reduceIte]; exact hflex
+        refine ⟨hwft, by rw [hstrip, hti]; exact hpos, by rw [hstrip, hti]; rfl, hnf, .struct (emitStruct (mkDMs ms l)), ?_, ?_, ?_⟩
         · simp only [emittype, hdecls, hl, hds, hlay, hLm, hms, Bool.false_eq_true, ↓reduceIte]
         · rw [hcol]
           simp only [info, hstrip, hti, mkTi, r1, r2, hra, hrs, hLa, flattenC, hds, Bool.not_false, Bool.and_self, hLm, hms]
@@ -306,7 +311,9 @@ mutual
             omega
         have hti : ti (.su true false fs) = mkTi (Abi.layout x86_64 true false ds) := by
           simp only [ti, erase, Abi.tinfo, hds, mkTi]
-        refine ⟨hwft, by rw [hstrip, hti]; exact hpos, by rw [hstrip, hti]; rfl, .union (emitUnion (mkDMs ms l)), ?_, ?_, ?_⟩
+        have hnf : (ti (.su true false fs)).flexible = false := by
+          rw [hti]; simp only [mkTi, Abi.layout, ↓reduceIte]; exact hflex
+        refine ⟨hwft, by rw [hstrip, hti]; exact hpos, by rw [hstrip, hti]; rfl, hnf, .union (emitUnion (mkDMs ms l)), ?_, ?_, ?_⟩
         · simp only [emittype, hdecls, hl, hds, hlay, hms, ↓reduceIte]
         · simp only [info, hstrip, hti, mkTi, r1, r2, r3, h1, h2, hal1, flattenC, hds, hms, Bool.not_true, Bool.and_false]
           rw [flattenFields_flatL false fs ms none (by rw [hds]; exact hok), us, ua]
@@ -326,7 +333,7 @@ mutual
           have e2 := tinfo_ok (erase (stripArr ty)) (wf_strip ty pty.wf)
           simp only [its, hl, hprod, ↓reduceIte, q1, e1, e2, ti]
         · simp only [FOk, hprod, ↓reduceIte]
-          exact ⟨_, _, rfl, ⟨rfl, rfl, pty.spos, q2, arrFacts ty h.1 pty.complete, q3⟩, hfo⟩
+          exact ⟨_, _, rfl, ⟨rfl, rfl, pty.spos, q2, arrFacts ty h.1 pty.complete, pty.noflex, q3⟩, hfo⟩
       · refine ⟨l, ?_, ?_⟩
         · simp only [its, hl, hprod, Bool.false_eq_true, ↓reduceIte]
         · simp only [FOk, hprod, Bool.false_eq_true, ↓reduceIte]; exact hfo
